@@ -95,7 +95,9 @@ def run_one(tape: Any, cfg: Dict[str, Any], forbid: FrozenSet[str] = frozenset()
             elif kind == 'raise_hcr':
                 tables[i][HCR] = 'raise'
             elif kind == 'dns':
-                tables[i][DNS] = ('ip', '10.0.0.9')
+                # a plugin answers resolve_dns with an address, or only with a source address to connect from: either ends
+                # the chain (plugins after it are not asked)
+                tables[i][DNS] = ('ip', '10.0.0.9') if tape.coin(0.6, 'dns-kind') else ('src', ('10.0.0.77', 0))
             elif kind == 'chunk_drop':
                 tables[i][HUC] = 'drop'
             elif kind == 'log_none':
@@ -329,6 +331,8 @@ def expect_first(tables: List[Dict[str, Any]], N: int, is_connect: bool) -> Dict
         a = tables[i].get(DNS, 'pass')
         if isinstance(a, tuple) and a[0] == 'ip':
             e['ip'] = a[1]
+            break
+        if isinstance(a, tuple) and a[0] == 'src':
             break
     hc = _chain(tables, N, HCR, counts, marks, b'h')
     e['hcr_calls'] = hc['calls']
